@@ -478,7 +478,7 @@ func TestC09(t *testing.T) {
 	// ---- large random contents
 	nbig := 6
 	if thorough {
-		nbig = 120
+		nbig = 600
 	}
 	rng := seedFor("C09")
 	for i := 0; i < nbig; i++ {
